@@ -39,10 +39,12 @@ CLAIMED["C06"] = ("Theorems C06_* (coq/Properties/C06.v): for every well-formed 
                   "DESIGN.md §4 C06")
 CLAIMED["C04"] = ("Theorem C04_commute_sound (coq/Properties/C04.v): for all 36 ordered pairs of the six unary operation types, all "
                   "parameters, all targets and all row lists, a reported move is well-formed and preserves the rows in order "
-                  "(partial moves included); a refused move hands back the existing operation. PartialJoin pairs are not "
-                  "covered by the theorem yet: they are decided by the exhaustive small-scope sweep of the real commute() "
-                  "(all pairs x parameter shapes x targets of <=2/3 rows), which also compares the model's commute with the "
-                  "real one. Known finding F2 (Projection past Deduplication, pinned by the suite) is excluded from the theorem "
+                  "(partial moves included); a refused move hands back the existing operation. Theorem C04_join_commute_sound: "
+                  "the same for PartialJoin requests (fixed operand on either side, every existing operation, predicate, common "
+                  "columns, fixed tree and target) under the documented ColumnTag contract; with the fixed operand on the left "
+                  "and an existing Sort the two sides are equal as multisets. The exhaustive small-scope sweep of the real "
+                  "commute() (all pairs x parameter shapes x targets of <=2/3 rows plus three long targets) compares the model's "
+                  "commute with the real one and judges the real reports. Known finding F2 (Projection past Deduplication, pinned by the suite) is excluded from the theorem "
                   "with a refutation witness and reported as KNOWN-FINDING.", "DESIGN.md §4 C04")
 CLAIMED["C14"] = ("Theorems C14_* (coq/Properties/C14.v): iteration-engine programs of any length build node-locally well-formed "
                   "trees without placeholder nodes; the documented no-op calls (projection onto all columns, empty sort, "
